@@ -337,6 +337,70 @@ Fixpoint run_ops (ops : list op) (s : net) : net * list (res (list delivery)) :=
   | o :: r => let '(s1, x) := step o s in let '(s2, xs) := run_ops r s1 in (s2, x :: xs)
   end.
 
+(* ---- re-entrant callbacks: a user callback that, when invoked, performs one scripted operation on
+   the same network (and swallows its exception).  Network.notify does
+       callbacks = self.subscribers[can_id]
+       for callback in callbacks: callback(...)
+   i.e. it walks the LIST OBJECT by index while callbacks may change it: an append to that list is
+   visited in the same dispatch, a removal at or before the current index shifts the rest (the
+   element that moves into the current slot is skipped), and `del subscribers[can_id]` detaches the
+   list object, which is then walked to its end as it was.  [det] = the detached list, if any.
+   Not covered by the theorems (they speak about histories whose callbacks do not touch the
+   network); tied to the code by the correspondence only. *)
+Definition script_of (scripts : list (Z * op)) (h : handler) : option op :=
+  match h with HUser u => zassoc u scripts | _ => None end.
+
+Definition plain_op (o : op) : bool := match o with ONotify _ _ _ | ORecv _ => false | _ => true end.
+
+Definition live_list (c : Z) (s : net) : list handler :=
+  match lookup c (subs s) with Some l => l | None => [] end.
+
+Fixpoint dispatch_re (scripts : list (Z * op)) (fuel : nat) (c : Z) (data : list Z) (ts : Z) (i : nat)
+    (det : option (list handler)) (s : net) (log : list delivery) : net * res (list delivery) :=
+  match fuel with
+  | O => (s, Err E_FUEL)
+  | S f =>
+      let l := match det with Some l => l | None => live_list c s end in
+      match nth_error l i with
+      | None => (s, Ok log)
+      | Some h =>
+          let log' := log ++ [(h, c, data, ts)] in
+          match script_of scripts h with
+          | Some o =>
+              if plain_op o then
+                let s' := fst (step o s) in
+                let det' := match det, o with
+                            | None, OUnsub c' None => if c' =? c then Some l else None
+                            | d, _ => d
+                            end in
+                dispatch_re scripts f c data ts (S i) det' s' log'
+              else dispatch_re scripts f c data ts (S i) det s log'
+          | None => dispatch_re scripts f c data ts (S i) det s log'
+          end
+      end
+  end.
+
+Definition notify_re (scripts : list (Z * op)) (c : Z) (data : list Z) (ts : Z) (s : net)
+  : net * res (list delivery) :=
+  let '(s1, r) := match lookup c (subs s) with
+                  | Some _ => dispatch_re scripts 4096 c data ts 0 None s []
+                  | None => (s, Ok [])
+                  end in
+  ({| subs := subs s1; nodes := nodes s1; scanned := scan_step (scanned s1) c; chans := chans s1 |}, r).
+
+Definition step_re (scripts : list (Z * op)) (o : op) (s : net) : net * res (list delivery) :=
+  match o with
+  | ONotify c data ts => notify_re scripts c data ts s
+  | ORecv f => if f_err f || f_remote f then (s, Ok []) else notify_re scripts (f_id f) (f_data f) (f_ts f) s
+  | _ => step o s
+  end.
+
+Fixpoint run_ops_re (scripts : list (Z * op)) (ops : list op) (s : net) : net * list (res (list delivery)) :=
+  match ops with
+  | [] => (s, [])
+  | o :: r => let '(s1, x) := step_re scripts o s in let '(s2, xs) := run_ops_re scripts r s1 in (s2, x :: xs)
+  end.
+
 (* the deliveries of one step (an operation that raised delivered nothing) *)
 Definition log_of (r : res (list delivery)) : list delivery :=
   match r with Ok l => l | _ => [] end.
@@ -385,7 +449,8 @@ Inductive net_case :=
 | CScan (ids : list Z)
 | CSend (connected : bool) (c : Z) (data : list Z) (remote : bool)
 | CPeriodic (c : Z) (data : list Z) (period : Z) (remote : bool)
-| CPeriodicUpd (modify : bool) (c : Z) (data : list Z) (period : Z) (remote : bool) (updates : list (list Z)).
+| CPeriodicUpd (modify : bool) (c : Z) (data : list Z) (period : Z) (remote : bool) (updates : list (list Z))
+| CReent (scripts : list (Z * op)) (ops : list op).
 
 Definition run_net (c : net_case) : val :=
   match c with
@@ -402,4 +467,7 @@ Definition run_net (c : net_case) : val :=
       VL [fvald (fst st) (snd st);
           VL (map (fun sc => VL [fvald (fst (fst sc)) (snd (fst sc)); VL (map bcval (snd sc))])
                   (periodic_updates modify p st ups))]
+  | CReent scripts ops =>
+      let '(s, rs) := run_ops_re scripts ops init_net in
+      VL (map (res_val (fun l => VL (map dval l))) rs ++ [dump s])
   end.
